@@ -250,7 +250,14 @@ def rule_listings(ctx: Ctx) -> None:
         ctx.check(not extra and f"{item}.is_open" in terms, "C05.5", f"every item that is still open is {what}", go, A.stmt_of(node),
                   f"guarded only by {sorted(set(terms))}", f"whether an open item is {what} also depends on {extra}: open orders that fail "
                   "that extra condition during a re-index pass silently drop out of the open list (never processed or listed again)")
-    ctx.check(A.stmt_of(apps[0]).lineno > A.stmt_of(ys[0]).lineno and f"{item}.is_open" in guard_terms(apps[0])[:2], "C05.5",
+    post_terms: List[str] = []
+    for a in A.ancestors(apps[0]):
+        if a is lp:
+            break
+        if isinstance(a, ast.If) and a.lineno > A.stmt_of(ys[0]).lineno:
+            t_ = a.test
+            post_terms.extend(ast.unparse(p_) for p_ in (t_.values if isinstance(t_, ast.BoolOp) and isinstance(t_.op, ast.And) else [t_]))
+    ctx.check(A.stmt_of(apps[0]).lineno > A.stmt_of(ys[0]).lineno and f"{item}.is_open" in post_terms, "C05.5",
               "an item is kept iff it is still open after the consumer handled it", go, A.stmt_of(apps[0]), "append after the yield, re-testing is_open",
               "the re-index keeps items without re-testing is_open after the yield")
     swap = [s for s in A.stores(go) if A.dotted(s.target) == "self._open_items"]
